@@ -1,6 +1,6 @@
 """C12 -- DynamicBitset behaves like a growable reference bit vector (DESIGN.md section 4, C12).
 
-Harness mode, bounded: bitset sizes <= CAP (quick 8 / thorough 12); positions and shift distances
+Harness mode, bounded: bitset sizes <= CAP (quick 16 / thorough 32); positions and shift distances
 are full size_t (growth beyond the stand-in vector's capacity is a cut path, stated).  The
 dependency std::vector<bool> is an assumed-contract stand-in (stubs/vector) whose operator[]
 precondition i < size() is the obligation "no access outside the bitset".
@@ -217,7 +217,7 @@ def make_build(unit, cap, vcap, h, kf_expr='1'):
 
 
 def jobs(unit, tier, only=None):
-    cap = 8 if tier == 'quick' else 12
+    cap = int(os.environ.get("CV_C12_CAP", 16 if tier == "quick" else 32))   # measured: 16 -> 28 s, 32 -> 250 s, 48 -> shl times out
     out = []
     from .check import load_known_findings
     findings = load_known_findings('C12')
